@@ -341,6 +341,15 @@ func moveOutDir(w *bytes.Buffer, value json.RawMessage,
 	return errs.If()
 }
 
+// Returns the type of the elements of an array value: the element type for
+// a one-dimensional array, otherwise the array type with one fewer dimension.
+func arrayElementType(t *syntax.ArrayType, lookup *syntax.TypeLookup) syntax.Type {
+	if t.Dim > 1 {
+		return lookup.GetArray(t.Elem, t.Dim-1)
+	}
+	return t.Elem
+}
+
 func moveOutArrayDir(w *bytes.Buffer, value json.RawMessage,
 	t *syntax.ArrayType,
 	member *syntax.StructMember, lookup *syntax.TypeLookup,
@@ -360,10 +369,13 @@ func moveOutArrayDir(w *bytes.Buffer, value json.RawMessage,
 	if _, err := w.WriteString("[\n"); err != nil {
 		return err
 	}
+	// The elements of a multi-dimensional array are arrays
+	// with one fewer dimension, not values of the base type.
+	elemType := arrayElementType(t, lookup)
 	p := syntax.StructMember{
-		Tname: t.Elem.TypeId(),
+		Tname: elemType.TypeId(),
 	}
-	p.CacheIsFile(t.Elem)
+	p.CacheIsFile(elemType)
 	width := util.WidthForInt(len(valueArr))
 	var errs syntax.ErrorList
 	for i, v := range valueArr {
@@ -376,7 +388,7 @@ func moveOutArrayDir(w *bytes.Buffer, value json.RawMessage,
 		p.Id = k
 		if err := moveOutFiles(w,
 			&p,
-			t.Elem.IsFile(),
+			elemType.IsFile(),
 			v,
 			lookup,
 			pipestancePath,
@@ -814,10 +826,11 @@ func printOutArrayDir(w *bytes.Buffer, value json.RawMessage,
 	}
 	width := util.WidthForInt(len(valueArr))
 	newIndent := makeNewIndent(indent, width)
+	elemType := arrayElementType(t, lookup)
 	p := syntax.StructMember{
-		Tname: t.Elem.TypeId(),
+		Tname: elemType.TypeId(),
 	}
-	p.CacheIsFile(t.Elem)
+	p.CacheIsFile(elemType)
 	var errs syntax.ErrorList
 	for i, v := range valueArr {
 		if _, err := w.Write(newIndent); err != nil {
@@ -833,7 +846,7 @@ func printOutArrayDir(w *bytes.Buffer, value json.RawMessage,
 		p.Id = k
 		if err := printOutParam(w,
 			&p,
-			t.Elem.IsFile(),
+			elemType.IsFile(),
 			v,
 			lookup,
 			newIndent[:1], newIndent); err != nil {
